@@ -113,7 +113,15 @@ func w2Gen(r *rand.Rand, prop, tier string) *simrt.Case {
 		}
 	case "C15":
 		g := int64(r.IntN(2))
+		longLived := r.IntN(3) == 0 // everybody stays for several session timeouts, heartbeating well within them
 		for m := 0; m < nm; m++ {
+			if longLived {
+				// (the expiry sweep runs more often than these members heartbeat: a new coordinator judges
+				// each member by what the store says about it before the member's next request arrives)
+				cfg["cleanup_ms"] = 500
+				c.Program = append(c.Program, simrt.Op{Actor: m, Kind: "cycle", A: g, B: mask(), C: 24, D: session / 4, S: "diligent"})
+				continue
+			}
 			c.Program = append(c.Program, simrt.Op{Actor: m, Kind: "cycle", A: g, B: mask(), C: iters * 2, D: pk[int64](r, 20, 100, 400)})
 			if r.IntN(4) == 0 {
 				c.Program = append(c.Program, simrt.Op{Actor: m, Kind: "leave"})
@@ -121,7 +129,13 @@ func w2Gen(r *rand.Rand, prop, tier string) *simrt.Case {
 		}
 		nfo := 1 + r.IntN(2)
 		for i := 0; i < nfo; i++ {
-			c.Program = append(c.Program, simrt.Op{Actor: 200, Kind: "sleep", A: int64(5 + r.IntN(3000))}, simrt.Op{Actor: 200, Kind: "failover", B: int64(r.IntN(2))})
+			wait := int64(5 + r.IntN(3000))
+			if r.IntN(3) == 0 {
+				// a switch after the group has been stable for longer than a session timeout: what the
+				// store holds about each member's liveness is then older than the timeout unless it is kept fresh
+				wait = session + int64(r.IntN(3000))
+			}
+			c.Program = append(c.Program, simrt.Op{Actor: 200, Kind: "sleep", A: wait}, simrt.Op{Actor: 200, Kind: "failover", B: int64(r.IntN(2))})
 		}
 	default: // C12, C14
 		g := int64(r.IntN(2))
